@@ -26,6 +26,8 @@
               query (exact (root ...) npops (sum ...))
               obs (status (remaining ...) (seen ...)), status 1 = NewCommitsQueue failed, 2 = a pop failed,
               3 = RemoveAncestors returned an error
+      kind 5: the merge command (runMerge through wrgl.VerifRunMerge): heads/main = first head, the
+              others passed as hex sums; query (head ...), obs as kind 1 = the base the command used
       observation = (obs ...). *)
 From W.lib Require Import Tree GoSort.
 From W.model Require Import Graph Queue.
@@ -193,6 +195,31 @@ End Generic.
 Definition t_is_ancestor_of (g : graph) := is_ancestor_of g (ins_time g) (srt_time g).
 Definition t_seek (g : graph) := seek_common_ancestor g (ins_time g) (srt_time g).
 
+(** cmd/wrgl/merge_cmd.go runMerge: commits = [branch head; the other heads in argument
+    order]; the base is ONE call  ref.SeekCommonAncestor(db, commits...)  over all heads
+    (an error, "not found" included, aborts the merge). *)
+Definition merge_base (g : graph) ins srt (heads : list id) : seekres :=
+  seek_common_ancestor g ins srt heads.
+Definition t_merge_base (g : graph) := merge_base g (ins_time g) (srt_time g).
+
+(** NOT what the code does (kept for the refutation C11_fold_not_all_at_once_refuted):
+    folding the two-input search over the heads from the left *)
+Fixpoint seek_fold_loop (g : graph) ins srt (base : id) (cs : list id) : seekres :=
+  match cs with
+  | [] => SFound base
+  | c :: r =>
+      match seek_common_ancestor g ins srt [base; c] with
+      | SFound b => seek_fold_loop g ins srt b r
+      | e => e
+      end
+  end.
+Definition seek_fold (g : graph) ins srt (cs : list id) : seekres :=
+  match cs with
+  | [] => seek_common_ancestor g ins srt []
+  | c :: r => seek_fold_loop g ins srt c r
+  end.
+Definition t_seek_fold (g : graph) := seek_fold g (ins_time g) (srt_time g).
+
 (** tree coders (trusted only by the correspondence) *)
 Fixpoint d_graph (i : N) (ns : list tree) : graph :=
   match ns with
@@ -263,6 +290,14 @@ Definition run_query (kind : nat) (g : graph) (q : tree) : tree :=
       match t_new_queue g (d_list d_N (d_nth 1 q)) with
       | Ok q0 => pu_run g (d_bool (d_nth 0 q)) q0 (d_list d_N (d_nth 2 q)) []
       | _ => Node [Leaf 1; Node []; Node []; Node []]
+      end
+  | 5%nat =>
+      match t_merge_base g (d_list d_N q) with
+      | SFound x => Node [Leaf 0; t_id x]
+      | SErr => Node [Leaf 1]
+      | SNotFound => Node [Leaf 2]
+      | SNil => Node [Leaf 3]
+      | SFuel => Node [Leaf 9]
       end
   | _ =>
       let exact := d_bool (d_nth 0 q) in
